@@ -197,15 +197,17 @@ def execute(case, tape):
                 # the API contract: a replica is registered for a computation the directory and
                 # the replica host know; a computation has one host at a time, so a new host
                 # registers only once the former host's un-registration has been processed
-                # (in pyDcop: after the repair protocol) -> drain first
+                # (in pyDcop: after the repair protocol) -> drain first; likewise an agent name
+                # is published again (by anybody) only once its removal has been processed:
+                # publications from two different agents are not ordered by the transport
                 need = op[0] in ("reg_replica", "unreg_comp", "unreg_agent") or \
-                    (op[0] == "reg_comp" and op[2] in undrained_unreg)
+                    (op[0] in ("reg_comp", "reg_agent") and op[2] in undrained_unreg)
                 if need and not drained:
                     b.drain()
                     drained = True
                 if drained:
                     undrained_unreg.clear()
-                if op[0] == "unreg_comp":
+                if op[0] in ("unreg_comp", "unreg_agent"):
                     undrained_unreg.add(op[2])
                 issued.append((i, drained))
                 run(op)
